@@ -44,6 +44,16 @@ func TestSystemSilences(t *testing.T) {
 		Opt:        scen.GenOpt{Horizon: 2 * time.Hour, Depth: 2, Fanout: 2, Silences: true, Probes: true, ShortTimers: true, Restarts: true}}, sysCheckers)
 }
 
+// TestSystemSilencesWithInhibition: the same with inhibition rules in play, so that alerts are silenced
+// and inhibited at once - where the status the API reports and the status filters it offers
+// (silenced=false, inhibited=false, active=false) have to agree for both suppression kinds.
+func TestSystemSilencesWithInhibition(t *testing.T) {
+	sub := vf.Cur().Sub("system-silences-with-inhibition", "generated system scenario with 1-3 silences AND 1-2 inhibition rules on the real app in virtual time; API probes ask GET /alerts and GET /alerts/groups unfiltered and with silenced=false, inhibited=false, active=false, silenced=false&active=false: silencedBy (in both endpoints) equals the stored silences, no filtered response returns an alert whose reported status the filter excludes, and every alert of the unfiltered response whose status the filter admits is in the filtered one (status unchanged between two unfiltered reads); non-trivial = some probe judged an alert that was silenced and inhibited at once; distinct by (seed, attempts, judged counters)", 10)
+	sysrun.Run(t, "C02", sub, sysrun.Family{Name: "silinh", Quick: 120, Thorough: 4000,
+		NonTrivial: func(c map[string]int64) bool { return c["api_filter_probes_of_silenced_and_inhibited_alerts"] > 0 },
+		Opt:        scen.GenOpt{Horizon: 2 * time.Hour, Depth: 2, Fanout: 2, Silences: true, Inhibit: true, Probes: true, ShortTimers: true, MaxLabelSets: 8}}, sysCheckers)
+}
+
 // TestConcurrentSilencer hammers one store from several goroutines (real parallelism, real
 // clock, silences far from their boundaries) and compares, at quiescent points, the silencer's
 // verdicts with the brute-force verdict. Its main purpose is the race-detector pass.
